@@ -225,7 +225,7 @@ info('C15',
 info('C16',
      'P: KrylovBased._to_cache (FIFO of size N_cache) and _calc_result_full (every coefficient vf[j] is paired exactly once with the '
      'Krylov vector q(j), for every N_cache >= 2 and every Krylov dimension N >= 2, across rebuilds of the evicted vectors) '
-     '(contracts/c_krylov.py). '
+     '; LanczosEvolution.run: which vector is returned for every normalize / exponent combination (contracts/c_krylov.py). '
      'B (bounded, not proof): LanczosGroundState over N_cache in {2,3,N_max} x reortho x E_shift on random Hermitian block-sparse '
      'operators (normalised vector, E0 = Rayleigh quotient >= minimum of the sector, exact at full Krylov dimension, independent of '
      'N_cache), orthogonal projection, Shift/Sum operator wrappers, Lanczos/Arnoldi evolution vs expm (norm preserving for '
